@@ -406,6 +406,29 @@ def _correction(prog: Program, res: Result):
     elem_expr = elem_var = node_ = None
     returned_ok = False
     rets = [r for r in ast.walk(fn) if isinstance(r, ast.Return) and r.value is not None]
+    # short cuts that hand the curve back unshifted: exact only when the two radii are EQUAL (ln 1 = 0); a path that returns the
+    # input under any weaker test (a tolerance) leaves a correction of up to ln(1 + tol / rb) out
+    from ..custody import root_of as _root_of
+    from ..paths import make_cmp as _mk
+
+    ident = [r for r in rets if _root_of(fn, r.value)[:2] == ("param", P)]
+    if ident and len(ident) < len(rets):
+        e3 = Engine(prog, fi, Hooks(), loop_bound=1)
+        s3 = State()
+        for p_ in ps:
+            s3.env[p_] = Rat.atom(p_)
+        eqc = _mk(Rat.atom("rb_star"), "==", Rat.atom("rb"))
+        for f_ in e3.run_function(s3):
+            if f_.exit is None or f_.exit[0] != "return" or not any(f_.exit[2] is r for r in ident):
+                continue
+            same = f_.decide(eqc) is True
+            trail = " & ".join(k for k, tr, ln in f_.trail)[:100]
+            res.ob("R11.2", f"the curve is handed back unshifted only where rb_star == rb has been established (path [{trail}])", same, prog.loc(fi, f_.exit[2]))
+            if not same:
+                res.violation("R11.2", f"identity-shortcut|{trail[:60]}", prog.loc(fi, f_.exit[2]), q,
+                              f"borehole_radius_correction returns the curve unshifted on the path [{trail}], which does not establish rb_star == rb: "
+                              "for radii that differ by less than the tolerance the correction ln(rb_star / rb) is left out, and corrections are no longer additive in ln of the ratio")
+        rets = [r for r in rets if r not in ident]
     if len(rets) != 1:
         raise AnalysisError(f"{q}: expected one return")
     rv = rets[0].value
@@ -630,7 +653,63 @@ def _sources(prog: Program, res: Result):
         res.violation("R11.3", "return-order", prog.loc(fi, ret[0]) if ret else prog.loc(fi, fi.node), q, "grab_g_function does not return (simulation curve, wall curve) in that order")
 
 
+SOLVER_OPTIONS_EXACT = {"nSegments", "segment_ratios"}          # the discretisation the rule below fixes
+SOLVER_OPTIONS_NEUTRAL = {"disp", "profiles", "dtype"}            # no effect on the values
+SOLVER_OPTIONS_APPROX = {"approximate_FLS", "nFLS", "mQuad", "linear_threshold", "kind", "disTol", "tol", "kClusters", "cylinder_correction"}
+
+
+def _solver_options(prog: Program, res: Result):
+    """R11.4 (continued): the options handed to pygfunction's gFunction ask for nothing but the discretisation: no key that
+    replaces the finite-line-source solution by an approximation of it (table of pygfunction's documented options)."""
+    q = f"{GF}.calculate_g_function"
+    fi = prog.func(q)
+    res.analysed(q)
+    calls = [c for c in ast.walk(fi.node) if isinstance(c, ast.Call) and (attr_chain(c.func) or "").endswith("gFunction")]
+    names = set()
+    for c in calls:
+        for k in c.keywords:
+            if k.arg == "options":
+                if isinstance(k.value, ast.Name):
+                    names.add(k.value.id)
+                elif isinstance(k.value, ast.Dict):
+                    names.add(None)
+    if not calls or not names:
+        raise AnalysisError(f"{q}: the options handed to gFunction were not found")
+    keys = {}
+    for n in ast.walk(fi.node):
+        if isinstance(n, ast.Assign) and len(n.targets) == 1:
+            t = n.targets[0]
+            if isinstance(t, ast.Name) and t.id in names and isinstance(n.value, ast.Dict):
+                for k in n.value.keys:
+                    if isinstance(k, ast.Constant):
+                        keys.setdefault(k.value, n)
+                    else:
+                        raise AnalysisError(f"{q}: option key that is not a literal")
+            elif isinstance(t, ast.Subscript) and isinstance(t.value, ast.Name) and t.value.id in names:
+                if isinstance(t.slice, ast.Constant):
+                    keys.setdefault(t.slice.value, n)
+                else:
+                    raise AnalysisError(f"{q}: option key that is not a literal")
+        elif isinstance(n, ast.Call) and isinstance(n.func, ast.Attribute) and n.func.attr in ("update", "setdefault") and isinstance(n.func.value, ast.Name) and n.func.value.id in names:
+            raise AnalysisError(f"{q}: options changed through .{n.func.attr}() - keys not enumerated")
+    for c in calls:
+        for k in c.keywords:
+            if k.arg == "options" and isinstance(k.value, ast.Dict):
+                for kk in k.value.keys:
+                    keys.setdefault(kk.value if isinstance(kk, ast.Constant) else "?", c)
+    bad = sorted(k for k in keys if k in SOLVER_OPTIONS_APPROX)
+    unknown = sorted(k for k in keys if k not in SOLVER_OPTIONS_APPROX | SOLVER_OPTIONS_EXACT | SOLVER_OPTIONS_NEUTRAL)
+    if unknown:
+        raise AnalysisError(f"{q}: option(s) {unknown} are not in the table of pygfunction options - their effect on the values is not known")
+    res.ob("R11.4", f"the options handed to pygfunction ({sorted(keys)}) fix the discretisation only - none asks for an approximation of the finite line source", not bad, prog.loc(fi, calls[0]))
+    for k in bad:
+        res.violation("R11.4", f"solver-option|{k}", prog.loc(fi, keys[k]), q,
+                      f"the long-time g-function is computed with the pygfunction option '{k}', which replaces part of the finite-line-source solution by an approximation "
+                      "(e.g. a straight line below a time threshold): the stored curve no longer equals the analytical response for the fields / heights it affects")
+
+
 def _longtime(prog: Program, res: Result):
+    _solver_options(prog, res)
     q = f"{GF}.calc_g_func_for_multiple_lengths"
     fi = prog.func(q)
     res.analysed(q)
@@ -740,6 +819,14 @@ def _longtime(prog: Program, res: Result):
 
 
 VARIANTS = [
+    Variant("long-time solver told to linearise the response below one hour (seeded C11_h)", "break",
+            [(GF, "    if boundary in ("UHTR", "UBWT"):\n        gfunc = gt.gfunction.gFunction(", "    options[\"linear_threshold\"] = 3600.0\n    if boundary in ("UHTR", "UBWT"):\n        gfunc = gt.gfunction.gFunction(")], "R11.4"),
+    Variant("long-time solver asked to keep the segment profiles", "benign",
+            [(GF, "    if boundary in ("UHTR", "UBWT"):\n        gfunc = gt.gfunction.gFunction(", "    options[\"profiles\"] = True\n    if boundary in ("UHTR", "UBWT"):\n        gfunc = gt.gfunction.gFunction(")]),
+    Variant("radius correction skipped when the radii are within 1 mm (seeded C11_g)", "break",
+            [(GF, "        g_function_corrected = []\n        for g in g_function:", "        if abs(rb_star - rb) < 1.0e-3:\n            return list(g_function)\n        g_function_corrected = []\n        for g in g_function:")], "R11.2"),
+    Variant("radius correction skipped when the radii are equal", "benign",
+            [(GF, "        g_function_corrected = []\n        for g in g_function:", "        if rb_star == rb:\n            return list(g_function)\n        g_function_corrected = []\n        for g in g_function:")]),
     Variant("stored-height fast path returns the first height's radius (seeded C11_f)", "break",
             [(GF, "        # if the interpolation kind is default, use what we know about the\n", "        if h_eq in self.g_lts:\n            g_function = self.g_lts[h_eq]\n            rb = self.r_b_values[height_values[0]]\n            return g_function, rb, self.d, h_eq\n\n        # if the interpolation kind is default, use what we know about the\n")], "R11.7"),
     Variant("stored-height fast path returns the curve with its own radius", "benign",
